@@ -389,11 +389,18 @@ where
         + LossyFrom<U0F128>,
 {
     //wraparound
-    while angle > PI {
-        angle -= T::lossy_from(TWO_PI);
+    let two_pi = T::lossy_from(TWO_PI);
+    if angle > PI {
+        angle %= two_pi;
+        if angle > PI {
+            angle -= two_pi;
+        }
     }
-    while angle < -PI {
-        angle += T::lossy_from(TWO_PI);
+    if angle < -PI {
+        angle %= two_pi;
+        if angle < -PI {
+            angle += two_pi;
+        }
     }
     //mirror
     if angle > FRAC_PI_2 {
